@@ -5,7 +5,7 @@ From Knut Require Import Model.Str Model.Dec Model.Date Model.Account Model.Ledg
      Model.Table Model.ImpCommonA
      Model.Imp.Swisscard2 Model.Imp.Viac Model.Imp.Cumulus Model.Imp.Postfinance Model.Imp.Swisscard Model.Imp.Supercard
      Spec.ImpSpecA Spec.ImpStmtA
-     Proofs.StrProofs Proofs.ImpProofsA.
+     Proofs.StrProofs Proofs.ImpProofsA Proofs.ImpRunB.
 Import ListNotations.
 Open Scope bool_scope.
 
@@ -61,4 +61,170 @@ Proof.
   intros Hf Hwf. unfold sc2_statement_output. rewrite Hwf. eexists. split; [reflexivity|].
   destruct recs as [|h rows]; [discriminate Hwf|]. cbn [sc2_statement_wf] in Hwf. cbn [tl map].
   apply (run_swisscard2_ok flag acct _ _ Hf). cbn [import_swisscard2]. apply sc2_rows_spec, Hwf.
+Qed.
+
+(* ---------------------------------------------------------------- ch.postfinance *)
+Lemma pf_row_spec acct cur r : pf_wf_row r = true ->
+  exists f0 f1 f2 f3 f4 f5 tl d q,
+    r = f0 :: f1 :: f2 :: f3 :: f4 :: f5 :: tl /\
+    (Nat.ltb (length r) 7 || Nat.ltb 8 (length r)) = false /\
+    parse_dmy f0 = Some d /\ pf_amount f2 f3 = MOk q /\
+    simple_txn d (pf_desc f1 f5 f4) tbd_account acct cur q = change_directive acct (pf_fact cur r) (pf_text r).
+Proof.
+  intros Hwf. unfold pf_wf_row in Hwf. apply andb4 in Hwf. destruct Hwf as (Hl & Hd & Hx & Hq).
+  unfold pf_is_row in Hl. apply andb_prop in Hl. destruct Hl as [Hl1 Hl2].
+  destruct r as [|f0 [|f1 [|f2 [|f3 [|f4 [|f5 [|f6 r]]]]]]]; try discriminate Hl1.
+  apply is_some_inv in Hd. destruct Hd as [d Hd]. apply is_some_inv in Hq. destruct Hq as [q Hq].
+  pose proof (pf_amount_ok _ q Hx Hq) as Ha.
+  unfold field in Hd, Ha. cbn [nth] in Hd, Ha.
+  do 9 eexists. split; [reflexivity|]. split.
+  - destruct r as [|? [|? r]]; [reflexivity|reflexivity|discriminate Hl2].
+  - split; [exact Hd|]. split; [exact Ha|].
+    unfold change_directive, pf_fact. cbn [rf_date rf_com rf_amount]. rewrite Hq. unfold field. cbn [nth]. rewrite Hd. reflexivity.
+Qed.
+
+Lemma pf_bookings_spec dbg acct cur rows : forall d1 rest,
+  forallb pf_wf_row rows = true -> pf_is_row d1 = false ->
+  pf_bookings dbg acct cur (map CRec rows ++ CRec d1 :: rest) = (MOk (pf_directives acct cur rows, rest), pf_debug_line dbg d1).
+Proof.
+  intros d1 rest. induction rows as [|r rows IH]; intros Hwf Hd1.
+  - cbn [map app pf_bookings pf_directives]. unfold pf_is_row in Hd1.
+    replace (Nat.ltb (length d1) 7 || Nat.ltb 8 (length d1)) with true; [reflexivity|].
+    symmetry. unfold Nat.ltb. destruct (Nat.leb 7 (length d1)) eqn:H7; cbn [andb] in Hd1.
+    + apply orb_true_iff. right. apply Nat.leb_le. apply Nat.leb_gt in Hd1. lia.
+    + apply orb_true_iff. left. apply Nat.leb_le. apply Nat.leb_gt in H7. lia.
+  - cbn [forallb] in Hwf. apply andb_prop in Hwf. destruct Hwf as [Hr Hrs].
+    destruct (pf_row_spec acct cur r Hr) as (f0 & f1 & f2 & f3 & f4 & f5 & tl & d & q & Hr' & Hlen & Hd & Ha & Hdir).
+    cbn [map app]. cbn [pf_bookings]. rewrite Hlen. rewrite Hr' at 1. rewrite Hd, Ha, (IH Hrs Hd1). cbn [mbind fst snd].
+    rewrite Hdir. reflexivity.
+Qed.
+
+Lemma import_postfinance_spec dbg acct kvs header rows d1 ds :
+  let cur := pf_header_currency kvs s_CHF in
+  forallb pf_is_kv kvs = true -> pf_is_kv header = false -> valid_name cur = true ->
+  forallb pf_wf_row rows = true -> pf_is_row d1 = false -> forallb (fun r => len_is r 1) ds = true ->
+  import_postfinance dbg acct (pf_statement kvs header rows d1 ds) = (MOk (pf_directives acct cur rows), pf_debug_line dbg d1).
+Proof.
+  intros cur Hk Hh Hc Hrows Hd1 Hds.
+  unfold import_postfinance, pf_statement. rewrite (pf_kv_loop kvs [] header _ Hk Hh).
+  assert (Hcur : pf_cur_of (rev (map pf_pair kvs) ++ []) = cur).
+  { rewrite pf_cur_of_spec. reflexivity. }
+  rewrite pf_currency_ok by (rewrite Hcur; exact Hc). rewrite Hcur.
+  rewrite (pf_bookings_spec dbg acct cur rows d1 (map CRec ds) Hrows Hd1). cbn [mbind fst snd].
+  rewrite (pf_disclaimer_ok ds Hds). reflexivity.
+Qed.
+
+Lemma pf_parts_spec recs kvs header rows d1 ds : pf_parts recs = Some (kvs, header, rows, d1, ds) ->
+  recs = kvs ++ header :: (rows ++ d1 :: ds) /\ forallb pf_is_kv kvs = true /\ pf_is_kv header = false /\ pf_is_row d1 = false.
+Proof.
+  unfold pf_parts. destruct (split_while pf_is_kv recs) as [k r1] eqn:E1.
+  destruct (split_while_spec _ _ _ _ E1) as (H1 & H2 & H3).
+  destruct r1 as [|h r2]; [discriminate|].
+  destruct (split_while pf_is_row r2) as [rw r3] eqn:E2.
+  destruct (split_while_spec _ _ _ _ E2) as (H4 & H5 & H6).
+  destruct r3 as [|d r4]; [discriminate|]. intros H. injection H. intros; subst. repeat split; assumption.
+Qed.
+
+Theorem postfinance_stdout dbg flag acct recs :
+  account_flag flag = AAcc acct -> pf_statement_wf recs = true ->
+  exists out, pf_statement_output acct recs = Some out /\
+    run_postfinance dbg flag (map CRec recs) = mkRun (pf_debug_line dbg (pf_after_rows recs) ++ out) SOk.
+Proof.
+  intros Hf Hwf. unfold pf_statement_output, pf_after_rows. rewrite Hwf. unfold pf_statement_wf in Hwf.
+  destruct (pf_parts recs) as [[[[[kvs header] rows] d1] ds]|] eqn:Hp; [|discriminate Hwf].
+  eexists. split; [reflexivity|].
+  destruct (pf_parts_spec _ _ _ _ _ _ Hp) as (Hrecs & Hk & Hh & Hd1).
+  apply andb_prop in Hwf. destruct Hwf as [Hwf Hds]. apply andb_prop in Hwf. destruct Hwf as [Hc Hrows].
+  apply (run_postfinance_ok dbg flag acct _ _ _ Hf).
+  replace (map CRec recs) with (pf_statement kvs header rows d1 ds).
+  - apply import_postfinance_spec; assumption.
+  - subst recs. unfold pf_statement. rewrite map_app. cbn [map]. rewrite map_app. reflexivity.
+Qed.
+
+(* ---------------------------------------------------------------- ch.viac *)
+Theorem viac_stdout flag from l :
+  valid_name flag = true -> viac_statement_wf from l = true ->
+  exists out, viac_statement_output flag from l = Some out /\ run_viac flag from (VValues l) = mkRun out SOk.
+Proof.
+  intros Hf Hwf. unfold viac_statement_output. rewrite Hwf. eexists. split; [reflexivity|].
+  unfold viac_statement_wf in Hwf. apply andb_prop in Hwf. destruct Hwf as [Hfrom Hl].
+  apply viac_run_from; [exact Hf| |exact Hl].
+  destruct from as [f|]; [|reflexivity]. apply is_some_inv in Hfrom. destruct Hfrom as [d Hd]. rewrite Hd. reflexivity.
+Qed.
+
+(* ---------------------------------------------------------------- ch.supercard *)
+Lemma sup_row_spec acct r : sup_ignored r = false -> sup_wf_row r = true ->
+  sup_line acct r = MOk (Some (change_directive acct (sup_fact r) (sup_text r))).
+Proof.
+  intros Hi Hwf. unfold sup_wf_row in Hwf. rewrite Hi in Hwf. cbn [orb] in Hwf.
+  apply andb4 in Hwf. destruct Hwf as (Hl & Hd & Ha & Hc). unfold len_is in Hl.
+  destruct r as [|f0 [|f1 [|f2 [|f3 [|f4 [|f5 [|f6 [|f7 [|f8 [|f9 [|f10 [|f11 [|f12 [|x r]]]]]]]]]]]]]];
+    try discriminate Hl.
+  unfold sup_ignored, len_is, field in Hi. cbn [nth length Nat.leb Nat.eqb andb orb] in Hi.
+  apply orb_false_elim in Hi. destruct Hi as [Hi Hk]. apply orb_false_elim in Hi. destruct Hi as [Hs _].
+  unfold field in *. cbn [nth] in *.
+  apply is_some_inv in Hd. destruct Hd as [d Hd].
+  unfold sup_line, fld_p, fld, len_is. cbn [nth_error length Nat.eqb].
+  change s_saldovortrag with s_saldo. rewrite Hs, Hk. cbn [orb negb]. rewrite Hd.
+  unfold sup_amount_ok in Ha. unfold field in Ha. cbn [nth] in Ha.
+  unfold change_directive, sup_amount, sup_fact, sup_text, field. cbn [nth rf_date rf_com rf_amount]. rewrite Hd. cbn [date_or0].
+  destruct (is_empty f11) eqn:Hg; cbn [negb] in *.
+  - apply andb_prop in Ha. destruct Ha as [Hb Hq]. apply is_some_inv in Hq. destruct Hq as [q Hq].
+    destruct (is_empty f10); [discriminate Hb|]. cbn [negb]. rewrite Hq. cbn [mbind]. rewrite Hc.
+    cbn [dec_or0]. rewrite mul_sign_neg. reflexivity.
+  - apply is_some_inv in Ha. destruct Ha as [q Hq]. rewrite Hq. cbn [mbind]. rewrite Hc.
+    cbn [dec_or0]. rewrite mul_sign_pos. reflexivity.
+Qed.
+
+Lemma sup_lines_spec acct rows : forallb sup_wf_row rows = true ->
+  sup_lines acct (map CRec rows) = MOk (sup_directives acct rows).
+Proof.
+  induction rows as [|r rows IH]; intros Hwf; [reflexivity|].
+  cbn [forallb] in Hwf. apply andb_prop in Hwf. destruct Hwf as [Hr Hrs].
+  unfold sup_directives, sup_is_booking in *. cbn [map sup_lines filter]. destruct (sup_ignored r) eqn:Hi; cbn [negb].
+  - rewrite (sup_row_ignored acct r Hi). cbn [mbind]. rewrite (IH Hrs). reflexivity.
+  - rewrite (sup_row_spec acct r Hi Hr). cbn [mbind]. rewrite (IH Hrs). reflexivity.
+Qed.
+
+Theorem supercard_stdout flag acct recs :
+  account_flag flag = AAcc acct -> sup_statement_wf recs = true ->
+  exists out, sup_statement_output acct recs = Some out /\ run_supercard flag (map CRec recs) = mkRun out SOk.
+Proof.
+  intros Hf Hwf. unfold sup_statement_output. rewrite Hwf. eexists. split; [reflexivity|].
+  destruct recs as [|first [|header rows]]; try discriminate Hwf. cbn [sup_statement_wf] in Hwf. cbn [tl map].
+  apply andb_prop in Hwf. destruct Hwf as [Hfirst Hrows]. apply rec_eqb_eq in Hfirst. subst first.
+  apply (run_supercard_ok flag acct _ _ Hf). cbn. apply sup_lines_spec, Hrows.
+Qed.
+
+(* ---------------------------------------------------------------- ch.swisscard *)
+Lemma sc_row_spec acct r : sc_is_booking r = true -> sc_wf_row r = true ->
+  sc_booking acct r = MOk (Some (charge_directive acct (sc_fact r) (sc_text r))).
+Proof.
+  intros Hb Hwf. unfold sc_wf_row in Hwf. rewrite Hb in Hwf.
+  apply andb3 in Hwf. destruct Hwf as (Hl & Hd & Hq). unfold len_is in Hl.
+  do 11 (destruct r as [|? r]; [discriminate Hl|]). destruct r; [|discriminate Hl].
+  unfold field in *. cbn [nth] in *. cbn [sc_is_booking] in Hb. apply andb_prop in Hb. destruct Hb as [Hb0 Hb1].
+  apply is_some_inv in Hd. destruct Hd as [d Hd]. apply is_some_inv in Hq. destruct Hq as [q Hq].
+  unfold sc_booking, fld_p, fld, sc_words, len_is. cbn [nth_error length Nat.eqb].
+  rewrite Hb0, Hb1. cbn [negb]. rewrite Hd. rewrite sc_clean_spec, Hq.
+  unfold charge_directive, sc_fact, field. cbn [nth rf_date rf_com rf_amount]. rewrite Hd, Hq. cbn [date_or0 dec_or0].
+  rewrite neg_involutive. reflexivity.
+Qed.
+
+Lemma import_swisscard_spec acct rows : forallb sc_wf_row rows = true ->
+  import_swisscard acct (map CRec rows) = MOk (sc_directives acct rows).
+Proof.
+  induction rows as [|r rows IH]; intros Hwf; [reflexivity|].
+  cbn [forallb] in Hwf. apply andb_prop in Hwf. destruct Hwf as [Hr Hrs].
+  unfold sc_directives in *. cbn [map import_swisscard filter]. destruct (sc_is_booking r) eqn:Hb.
+  - rewrite (sc_row_spec acct r Hb Hr). cbn [mbind]. rewrite (IH Hrs). reflexivity.
+  - rewrite (sc_row_ignored acct r Hb Hr). cbn [mbind]. rewrite (IH Hrs). reflexivity.
+Qed.
+
+Theorem swisscard_stdout flag acct recs :
+  account_flag flag = AAcc acct -> sc_statement_wf recs = true ->
+  exists out, sc_statement_output acct recs = Some out /\ run_swisscard flag (map CRec recs) = mkRun out SOk.
+Proof.
+  intros Hf Hwf. unfold sc_statement_output. rewrite Hwf. eexists. split; [reflexivity|].
+  apply (run_swisscard_ok flag acct _ _ Hf). apply import_swisscard_spec, Hwf.
 Qed.
